@@ -57,6 +57,19 @@ func (w *world) mutate(m *model.Ledger, t model.Txn, k int) model.Txn {
 	}
 	switch k {
 	case mutDupInput:
+		if len(x.In) == 1 && tp.Bool("mut-dup-nonadjacent") {
+			// the same output named twice with another input in between ([X, Y, X]); Y's coins are paid out too
+			for _, id := range w.ownedUnspents(m) {
+				if id != x.In[0] {
+					x.In = append(x.In, id)
+					// what a double count of X would make look balanced: X twice plus Y
+					if u, ok := m.Unspent[x.In[0]]; ok {
+						x.Out[0].Coins += m.Unspent[id].Coins + u.Coins
+					}
+					break
+				}
+			}
+		}
 		x.In = append(x.In, x.In[0])
 		resign = true
 	case mutCreateCoins:
